@@ -117,6 +117,8 @@ class TLCResult:
         self.violated += re.findall(r"Action property (\w+) is violated", out)
         self.finished = "Model checking completed" in out or "Finished in" in out
         self.error = None
+        if "Temporal properties were violated" in out:
+            self.violated.append("Termination")
         if rc != 0 and not self.violated:
             em = re.search(r"Error: (.*)", out)
             self.error = em.group(1) if em else "rc=%d" % rc
